@@ -223,7 +223,10 @@ CHECK_DEADLOCK FALSE
 CLI_PROGS = {
     "unparseable": ["prc[a : 1 = close\n", "type A = \n", "prc[a] : 1 = close self @\n", "let f( = 1\n", ""],
     "illtyped_stuck": ["prc[a] : 1 = print hi; wait b; close self\nprc[b] : 1 -* 1 = <x,y> <- recv self; close self\n",
-                       "prc[a] : 1 = print q; wait b; close self\nprc[b] : &{l : 1} = case self ( l<z> => close z )\n"],
+                       "prc[a] : 1 = print q; wait b; close self\nprc[b] : &{l : 1} = case self ( l<z> => close z )\n",
+                       # the checker fails INTERNALLY on the function (known finding F5: explicit polarity mark on a name of named type); the process is
+                       # never checked - it must not be run either
+                       "type B = 1\ntype A = &{l : B}\nlet f(x : A) : B = x.l<+self>\nprc[a] : 1 = print leaked; close self\n"],
     "illtyped_panics": ["prc[a] : 1 = wait b; print x; close self\nprc[b] : 1 = c : 1 <- new close self; d : 1 <- new close self; send self<c, d>\n",
                         "prc[a] : 1 = <x, y> <- recv b; print x; close self\nprc[b] : 1 = close self\n"],
     "welltyped_silent": ["prc[a] : 1 = close self\n", "prc[a] : 1 = wait b; close self\nprc[b] : 1 = close self\n",
